@@ -15,15 +15,18 @@ package c03
 import (
 	"context"
 	"fmt"
+	"os"
 	"regexp"
 	"sort"
 	"strings"
 	"time"
 
+	debver "github.com/knqyf263/go-deb-version"
 	rpmver "github.com/knqyf263/go-rpm-version"
 
 	"github.com/quay/claircore"
 	"github.com/quay/claircore/aws"
+	"github.com/quay/claircore/debian"
 	"github.com/quay/claircore/libvuln/driver"
 	"github.com/quay/claircore/oracle"
 	"github.com/quay/claircore/photon"
@@ -31,6 +34,7 @@ import (
 	"github.com/quay/claircore/rhel/rhcc"
 	"github.com/quay/claircore/suse"
 	"github.com/quay/claircore/toolkit/types/cpe"
+	"github.com/quay/claircore/ubuntu"
 	"github.com/quay/claircore/verifharness/internal/hx"
 )
 
@@ -160,8 +164,8 @@ func rpmMatchers() []matcher {
 	}
 }
 
-// call runs the real Vulnerable.
-func call(m driver.Matcher, p pkg, a advisory, rc *rhelCase) string {
+// callRaw runs the real Vulnerable.
+func callRaw(m driver.Matcher, p pkg, a advisory, rc *rhelCase) string {
 	rec := &claircore.IndexRecord{Package: &claircore.Package{Name: "pkg", Version: p.version, Arch: p.arch}}
 	v := &claircore.Vulnerability{Name: "CVE-0", FixedInVersion: a.fixed, ArchOperation: a.op,
 		Package: &claircore.Package{Name: "pkg", Version: a.pkgVersion, Arch: a.pkgArch}}
@@ -175,16 +179,19 @@ func call(m driver.Matcher, p pkg, a advisory, rc *rhelCase) string {
 			v.Repo = &cp
 		}
 	}
-	return timed(5*time.Second, func() string {
-		ok, err := m.Vulnerable(context.Background(), rec, v)
-		if err != nil {
-			return "err"
-		}
-		if ok {
-			return "true"
-		}
-		return "false"
-	})
+	ok, err := m.Vulnerable(context.Background(), rec, v)
+	if err != nil {
+		return "err"
+	}
+	if ok {
+		return "true"
+	}
+	return "false"
+}
+
+// call runs the real Vulnerable under a deadline.
+func call(m driver.Matcher, p pkg, a advisory, rc *rhelCase) string {
+	return timed(5*time.Second, func() string { return callRaw(m, p, a, rc) })
 }
 
 func vulnLine(name string, p pkg, a advisory, rc *rhelCase) string {
@@ -197,9 +204,36 @@ func vulnLine(name string, p pkg, a advisory, rc *rhelCase) string {
 }
 
 type env struct {
-	r   *hx.Run
-	rnd *hx.Rand
-	cfg hx.Config
+	r       *hx.Run
+	rnd     *hx.Rand
+	cfg     hx.Config
+	pending []pendingOp // calls predicted not to return: run in a subprocess at the end
+	skipped int
+}
+
+func matcherByName(name string) driver.Matcher {
+	for _, m := range append(rpmMatchers(), debMatchers()...) {
+		if m.name == name {
+			return m.m
+		}
+	}
+	return nil
+}
+
+func debMatchers() []matcher {
+	return []matcher{{"debian", &debian.Matcher{}}, {"ubuntu", &ubuntu.Matcher{}}}
+}
+
+func debCompare(a, b string) string {
+	x, err := debver.NewVersion(a)
+	if err != nil {
+		return "err"
+	}
+	y, err := debver.NewVersion(b)
+	if err != nil {
+		return "err"
+	}
+	return sign(x.Compare(y))
 }
 
 var arches = []string{"x86_64", "aarch64", "noarch", "i686", "s390x"}
@@ -468,6 +502,9 @@ func (e *env) archOps(n int) {
 
 // Run is the entry point.
 func Run(cfg hx.Config) error {
+	if in := os.Getenv("C03_PROBE"); in != "" {
+		return probeChild(in)
+	}
 	r, err := hx.NewRun(cfg)
 	if err != nil {
 		return err
@@ -482,5 +519,214 @@ func Run(cfg hx.Config) error {
 	e.rpmCompareOps(cfg.N(6000, 200000))
 	e.rpmMatcherOps(cfg.N(40, 2000))
 	e.freeRpmMatcherOps(cfg.N(1500, 60000))
+	e.debWitness()
+	e.debCompareOps(cfg.N(5000, 150000))
+	e.debMatcherOps(cfg.N(40, 2000))
+	if err := e.flushPending(); err != nil {
+		return err
+	}
 	return r.Close()
+}
+
+// ---- go-deb-version, debian, ubuntu ----
+
+const findingDebHang = "deb-compare-hang"
+
+// debWitness replays the witness of the finding deb-compare-hang.
+func (e *env) debWitness() {
+	p, a := pkg{version: "1.00-1"}, advisory{fixed: "1.0-1"}
+	for _, name := range []string{"debian", "ubuntu"} {
+		name := name
+		e.defer_(probeReq{"vuln", []string{name, p.version, a.fixed}}, vulnLine(name, p, a, nil), func(got string) {
+			if got == "hang" {
+				e.r.KnownSeen(findingDebHang, fmt.Sprintf("%s Vulnerable(package 1.00-1, fixed 1.0-1) does not return", name))
+			}
+		})
+	}
+}
+
+func (e *env) debCompareOps(n int) {
+	r, rnd := e.r, e.rnd
+	for i := 0; i < n && !r.Stop(); i++ {
+		var a, b string
+		expect := 2
+		switch c := rnd.Intn(10); {
+		case c < 6:
+			x := genDeb(rnd)
+			y := x
+			for k := rnd.Intn(3); k > 0; k-- {
+				y = mutateDeb(rnd, y)
+			}
+			if rnd.Chance(1, 6) {
+				y = genDeb(rnd)
+			}
+			a, b = renderDeb(rnd, x, true), renderDeb(rnd, y, true)
+			if cmpDeb(x, y) == 0 && rnd.Chance(9, 10) {
+				// equal versions: mostly spelled alike (different spellings do not return)
+				a = renderDeb(rnd, x, false)
+				b = renderDeb(rnd, y, false)
+			}
+			expect = cmpDeb(x, y)
+			r.Count("debcmp:structured")
+		case c < 8:
+			a, b = freeStr(rnd, debAlphabet, 10), freeStr(rnd, debAlphabet, 10)
+			if rnd.Chance(1, 2) {
+				a, b = "1"+a, "2"+b // most free strings fail validation on the first character
+			}
+			r.Count("debcmp:free")
+		default:
+			a = renderDeb(rnd, genDeb(rnd), true)
+			b = edit(rnd, a, debAlphabet)
+			if rnd.Chance(1, 8) {
+				// long digit runs: strconv.Atoi clamps at MaxInt64
+				a = a + "." + rnd.Pick("9223372036854775807", "9223372036854775808", "99999999999999999999")
+				b = b + "." + rnd.Pick("9223372036854775807", "9223372036854775806", "99999999999999999998")
+			}
+			r.Count("debcmp:edited")
+		}
+		line := "debcmp " + hexs(a) + " " + hexs(b)
+		check := func(got string) {
+			r.Count("debcmp:result:" + got)
+			if got == "hang" {
+				if debHangShape(a, b) {
+					r.Fail(findingDebHang, fmt.Sprintf("go-deb-version Compare(%q,%q) does not return", a, b))
+				} else {
+					r.Fail("", fmt.Sprintf("deb-hang: Compare(%q,%q) does not return", a, b))
+				}
+				return
+			}
+			if expect != 2 && got != sign(expect) {
+				r.Fail("", fmt.Sprintf("deb-order: Compare(%q,%q)=%s, deb-version(7) says %s", a, b, got, sign(expect)))
+			}
+		}
+		if debHangShape(a, b) {
+			e.defer_(probeReq{"debcmp", []string{a, b}}, line, check)
+			continue
+		}
+		got := timed(5*time.Second, func() string { return debCompare(a, b) })
+		r.Op(line, got, a != b)
+		check(got)
+		if got != "hang" && got != "err" {
+			back := timed(5*time.Second, func() string { return debCompare(b, a) })
+			if !mirror(got, back) {
+				r.Fail("", fmt.Sprintf("deb-antisymmetry: Compare(%q,%q)=%s but Compare(%q,%q)=%s", a, b, got, b, a, back))
+			}
+		}
+		if i%4 == 0 {
+			s := timed(5*time.Second, func() string {
+				v, err := debver.NewVersion(a)
+				if err != nil {
+					return "err"
+				}
+				return hexs(v.String())
+			})
+			r.Op("debnew "+hexs(a), s, true)
+			r.Count("debnew:" + map[bool]string{true: "err", false: "ok"}[s == "err"])
+		}
+	}
+}
+
+type debElem struct {
+	rank  int
+	spell string
+}
+
+func (e *env) debChain(n int) []debElem {
+	rnd := e.rnd
+	vs := []debVer{genDeb(rnd)}
+	for len(vs) < n {
+		vs = append(vs, mutateDeb(rnd, vs[rnd.Intn(len(vs))]))
+	}
+	sort.SliceStable(vs, func(i, j int) bool { return cmpDeb(vs[i], vs[j]) < 0 })
+	var out []debElem
+	rank := 0
+	for i, v := range vs {
+		if i > 0 && cmpDeb(vs[i-1], v) != 0 {
+			rank++
+		}
+		out = append(out, debElem{rank, renderDeb(rnd, v, false)})
+		if rnd.Chance(1, 5) {
+			out = append(out, debElem{rank, renderDeb(rnd, v, true)}) // an equal version, possibly spelled differently
+		}
+	}
+	return out
+}
+
+// debPrintsZero: does the fix print as "0" (ubuntu's sentinel)?
+func debPrintsZero(s string) bool {
+	v, err := debver.NewVersion(s)
+	return err == nil && v.String() == "0"
+}
+
+func (e *env) debMatcherOps(chains int) {
+	r, rnd := e.r, e.rnd
+	for c := 0; c < chains && !r.Stop(); c++ {
+		chain := e.debChain(5 + rnd.Intn(4))
+		for _, m := range debMatchers() {
+			one := func(pe debElem, fixed string, frank int) {
+				p := pkg{version: pe.spell}
+				if rnd.Chance(1, 4) {
+					p.arch = rnd.Pick(arches...)
+				}
+				a := advisory{fixed: fixed}
+				if rnd.Chance(1, 4) {
+					a.pkgArch, a.op = rnd.Pick(arches...), claircore.ArchOp(rnd.Intn(4)) // ignored by these matchers
+				}
+				line := vulnLine(m.name, p, a, nil)
+				check := func(got string) {
+					r.Count("vuln:" + m.name + ":" + got)
+					e.debOracle(m.name, p, a, pe.rank, frank, got)
+				}
+				sentinel := fixed == "" || (m.name == "debian" && fixed == "0")
+				if !sentinel && debHangShape(p.version, fixed) {
+					e.defer_(probeReq{"vuln", []string{m.name, p.version, fixed}}, vulnLine(m.name, pkg{version: p.version}, advisory{fixed: fixed}, nil), check)
+					return
+				}
+				got := call(m.m, p, a, nil)
+				r.Op(line, got, true)
+				check(got)
+			}
+			for _, pe := range chain {
+				for _, fe := range chain {
+					if r.Stop() {
+						return
+					}
+					if rnd.Chance(1, 2) && pe.rank != fe.rank && pe.rank+1 != fe.rank && pe.rank != fe.rank+1 {
+						continue
+					}
+					one(pe, fe.spell, fe.rank)
+				}
+				// the sentinels
+				one(pe, rnd.Pick("", "0", "0:0", " 0", "0-0", "00"), -1)
+			}
+		}
+	}
+}
+
+// debOracle is the statement on the implementation's answer for a chain pair.
+func (e *env) debOracle(name string, p pkg, a advisory, prank, frank int, got string) {
+	if got == "hang" {
+		if debHangShape(p.version, a.fixed) {
+			e.r.Fail(findingDebHang, fmt.Sprintf("%s Vulnerable(package %q, fixed %q) does not return", name, p.version, a.fixed))
+		} else {
+			e.r.Fail("", fmt.Sprintf("%s-hang: Vulnerable(package %q, fixed %q) does not return", name, p.version, a.fixed))
+		}
+		return
+	}
+	var want bool
+	switch {
+	case a.fixed == "":
+		want = true // no fix yet: affected
+	case name == "debian" && a.fixed == "0":
+		want = false // "not affected" sentinel
+	case name == "ubuntu" && debPrintsZero(a.fixed):
+		want = true // ubuntu's sentinel
+	case frank < 0:
+		return // other spellings of zero: an ordinary (very small) version; compared by the model only
+	default:
+		want = prank < frank
+	}
+	if got != fmt.Sprint(want) {
+		e.r.Fail("", fmt.Sprintf("%s: Vulnerable(package %q, fixed %q)=%s, by construction expected %v", name, p.version, a.fixed, got, want))
+	}
 }
